@@ -118,6 +118,34 @@ class Ctx:
         return random.Random(int.from_bytes(h[:8], "big"))
 
 
+def die_with_parent():
+    """this process, and every process it forks later (fortls's worker pool), is killed when its parent dies"""
+    try:
+        import ctypes
+        import signal
+
+        libc = ctypes.CDLL("libc.so.6", use_errno=True)
+        libc.prctl(1, signal.SIGKILL)
+        os.register_at_fork(after_in_child=lambda: libc.prctl(1, signal.SIGKILL))
+    except Exception:
+        pass
+
+
+def kill_tree(p):
+    """kill a worker and everything in its process group (pool children)"""
+    import signal
+
+    try:
+        os.killpg(p.pid, signal.SIGKILL)
+    except (ProcessLookupError, PermissionError):
+        pass
+    try:
+        p.kill()
+    except Exception:
+        pass
+    p.wait()
+
+
 def load_prop(prop: str):
     return importlib.import_module(f"vf.props.{prop.lower()}")
 
@@ -133,13 +161,7 @@ def worker_main(argv):
     import faulthandler
 
     faulthandler.enable()
-    try:  # die with the driver (no orphan workers spinning in a hang)
-        import ctypes
-        import signal
-
-        ctypes.CDLL("libc.so.6", use_errno=True).prctl(1, signal.SIGKILL)
-    except Exception:
-        pass
+    die_with_parent()
     mod = load_prop(prop)
     ctx = Ctx(prop, tier, seed, shard, nshards)
     ctx.markfile = out + ".mark"
@@ -210,7 +232,7 @@ def run_check(prop: str, tier: str, seed: int) -> int:
         out = os.path.join(work, f"s{shard}.{'all' if only == '-' else 'o' + only}.{start}.log")
         p = subprocess.Popen(
             [PY, "-B", "-m", "vf.core", "--worker", prop, tier, str(seed), str(shard), str(nshards), out, str(start), only],
-            cwd=HERE, env=env, stdout=subprocess.DEVNULL, stderr=open(out + ".err", "w"),
+            cwd=HERE, env=env, stdout=subprocess.DEVNULL, stderr=open(out + ".err", "w"), start_new_session=True,
         )
         return {"p": p, "out": out, "pos": 0, "last": time.time(), "open": None, "shard": shard, "done": False}
 
@@ -263,8 +285,7 @@ def run_check(prop: str, tier: str, seed: int) -> int:
                     active.append(spawn(w["shard"], w["open"] + 1))
                 continue
             if time.time() - w["last"] > stall_s and w["open"] is not None or time.time() > hard_deadline:
-                w["p"].kill()
-                w["p"].wait()
+                kill_tree(w["p"])
                 drain(w)
                 active.remove(w)
                 if w["open"] is not None:
@@ -283,8 +304,7 @@ def run_check(prop: str, tier: str, seed: int) -> int:
             try:
                 w["p"].wait(timeout=max(1, t_end - time.time()))
             except subprocess.TimeoutExpired:
-                w["p"].kill()
-                w["p"].wait()
+                kill_tree(w["p"])
             drain(w)
             if i in results:
                 continue
